@@ -99,11 +99,11 @@ PROPS = {
         'not_covered': ['that the two printers escape at least the quote and the backslash (classic write_ir / modern escape_quote): bounded stand-in only (E3 round trip on all 1-byte, 2304 2-byte and special 3-byte atoms, 3 positions, 3 versions); the Kani per-atom harness did not finish (HashMap + String in CBMC, 20 min) and was dropped', 'decimal and hex text conversion (assumed inverse pairs)', 'list / dot layout', 'modern printer and reader: bounded stand-in only', 'CLI path'],
     },
     'C14': {
-        'units': ['safety', 'srcloc', 'ser', 'printer', 'depwalk', 'macroext', 'readerstep'],
+        'units': ['safety', 'srcloc', 'ser', 'printer', 'depwalk', 'macroext', 'readerstep', 'irreader'],
         'e3_always': ['no_panic', 'include_files', 'macro_ext', 'token_mutations'],
         'e3': ['no_panic', 'include_files', 'macro_ext', 'token_mutations'],
-        'decided': 'absence of panics, arithmetic overflow, out-of-bounds indexing and non-termination (under the stated preconditions) in the front-end leaves under contract: Stream::read / set_seek / get_seek, IRReader::backup, Bytes accessors and concat, atom_from_stream, atom_size_blob, int_from_bytes, get_u32, Srcloc arithmetic incl. len, is_hex / is_space / is_eol, has_oversized_sign_extension, ir_for_atom; the modern reader\'s per-byte transition function parse_sexp_step as a whole (every state x every byte: no index outside a list, no underflow, the recursion on the nested state terminates) and enlist; Preprocessor::process_include / recurse_dependencies index no parsed form that is not there (empty include file: finding F14, fixed); the defmac extension functions (string? number? symbol? string->symbol symbol->string string-append string-length substring) fetch every argument through required_arg (Ok exactly when the call supplies it) and substring only slices inside the string (finding F17, fixed)',
-        'not_covered': ['the other readers as wholes (read_ir, sexp_from_stream) and make_atom / restructure_list: bounded stand-in only (E3 no-panic sweep, bound stated in evidence)', 'compile, run, debug, REPL, dependency listing as wholes', 'termination of the include walk: recurse_dependencies <-> process_pp_form carry no decreases clause; include cycles overflow the stack (open finding F15, reproduced each run by the include_files stand-in in a child process)', 'located-error clause beyond C15', 'preconditions at unverified call sites (e.g. Stream length >= 1 at IRReader::backup) are assumptions'],
+        'decided': 'absence of panics, arithmetic overflow, out-of-bounds indexing and non-termination (under the stated preconditions) in the front-end leaves under contract: Stream::read / set_seek / get_seek, IRReader::backup, Bytes accessors and concat, atom_from_stream, atom_size_blob, int_from_bytes, get_u32, Srcloc arithmetic incl. len, is_hex / is_space / is_eol, has_oversized_sign_extension, ir_for_atom; THE CLASSIC READER AS A WHOLE (unit irreader, from read_ir down): for every text shorter than 2^63 bytes, consume_object / consume_cons_body / consume_atom / consume_whitespace / consume_quoted / enlist_ir / IRReader::{new,read,backup,read_expr} / Stream::{new,set_seek} index only what is there, read only inside the text, move the cursor only forward and terminate (every list element consumes at least one byte; mutual recursion by remaining length) -- consume_whitespace stops exactly at the first byte outside blanks and ; comments (skip_ws), consume_atom takes exactly the bytes up to the next parenthesis / blank / end; the modern reader\'s per-byte transition function parse_sexp_step as a whole (every state x every byte: no index outside a list, no underflow, the recursion on the nested state terminates) and enlist; Preprocessor::process_include / recurse_dependencies index no parsed form that is not there (empty include file: finding F14, fixed); the defmac extension functions (string? number? symbol? string->symbol symbol->string string-append string-length substring) fetch every argument through required_arg (Ok exactly when the call supplies it) and substring only slices inside the string (finding F17, fixed)',
+        'not_covered': ['interpret_atom_value (number / hex / symbol text of a classic atom: string parsing, stubbed); sexp_from_stream as a whole and make_atom / restructure_list: bounded stand-in only (E3 no-panic sweep, bound stated in evidence)', 'stack depth: both readers recurse (or drop) once per nesting level (outside the property by its own statement)', 'compile, run, debug, REPL, dependency listing as wholes', 'termination of the include walk: recurse_dependencies <-> process_pp_form carry no decreases clause; include cycles overflow the stack (open finding F15, reproduced each run by the include_files stand-in in a child process)', 'located-error clause beyond C15', 'preconditions at unverified call sites outside the classic reader are assumptions'],
     },
     'C19': {
         'units': ['atomicwrite', 'clvmcfile'],
